@@ -29,7 +29,7 @@ COMPONENTS_STUB = ["kernel TCP (SimNet pipes)", "event loop clock/selector (VLoo
 ASSUMPTIONS = ["a message is attributed to its flow by the unique token in its start line / marker header",
                "bodies are not streamed in these scenarios (a streamed body has left before the hook that could hold it)"]
 EXPECTED_PROBES = ["held_request", "held_response", "resumed", "edited_resume", "killed_while_held", "client_left_while_held",
-                   "pipelined_behind_held", "killed_streamed_response"]
+                   "pipelined_behind_held", "killed_streamed_response", "killed_in_hook"]
 
 TOKQ = re.compile(rb"/r(\d+)")
 
@@ -65,14 +65,21 @@ def generate(rng, tier):
     else:
         steps.append({"op": "fin"})
     policy = []
+    rk = rng.at("c11-kill-in-hook")
     for _ in range(r.choice([1, 1, 2, 3])):
         hook = r.choice(["requestheaders", "request", "request", "responseheaders", "response", "response"])
         which = "request" if hook in ("requestheaders", "request") else "response"
         then = r.choice(["resume", "resume", "edit_resume", "edit_resume", "kill", "kill"])
+        in_hook = rk.random() < 0.12
+        in_hook_after = rk.choice([0.0, 0.0, 0.001, 0.1])
         rule = {"hook": hook, "nth": r.choice([0, 0, 1, 2]), "latency": r.choice([0, 0, 0.01]), "action": "intercept",
                 "then": then, "after": r.choice([0.0, 0.001, 0.1, 1.0, 5.0]), "which": which,
                 "edits": [{"k": "set_header", "name": "X-Edited", "value": f"{hook}"}] +
                          ([{"k": "content", "value": "edited-body"}] if hook in ("request", "response") and r.random() < 0.5 else [])}
+        if in_hook:
+            # the kill arrives while the hook that intercepted the flow is still running (a later addon, or a user
+            # who is quicker than a slow addon): the proxy has not started to wait for the resume yet
+            rule["then"], rule["after"] = "kill_in_hook", in_hook_after
         policy.append(rule)
     # at most one rule per (hook, nth): two users fighting over one held flow is not what is being checked
     seen, pol2 = set(), []
@@ -178,6 +185,9 @@ def oracle(sc, obs):
             v.append({"class": "forwarded_before_hook", "key": {"hook": hook},
                       "msg": f"flow r{k}: request bytes at the origin at t={t_first:.6f}, before its {hook} hook at t={t0:.6f}"})
         n_copies = count_in(dest, needle)
+        if outcome == "kill_in_hook":
+            bump("killed_in_hook")
+            outcome = "kill"
         if outcome in ("resume", "edit_resume"):
             bump("resumed")
             if outcome == "edit_resume":
